@@ -232,6 +232,58 @@ fn approx_system<T: Fl, C: Ap<T>>(rep: &mut Report) {
     );
 }
 
+/// the same relations on special components and on whole-value transformations: one component of a, of b or of both is
+/// NaN, +-inf, +-0 or MAX (the conjunction of the scalar comparisons decides, whatever those say), and b = -a, b = a
+/// with its components rotated by one place, b = every component of a moved just outside the tolerance
+fn approx_special<T: Fl, C: Ap<T>>(rep: &mut Report) {
+    let n = C::N;
+    let sets = settings::<T>();
+    let g: Vec<T> = alphabet::generic(n, 2).iter().map(|&r| rq::<T>(r)).collect();
+    let specials: Vec<Option<T>> = vec![None, Some(T::nan()), Some(T::infinity()), Some(T::neg_infinity()), Some(T::zero()), Some(T::neg_zero()), Some(T::max_value())];
+    let ns = specials.len();
+    let per_set = n * ns * ns + 3;
+    rep.cases(
+        &format!("approx-special/{}", C::NAME),
+        T::NAME,
+        &format!("9 comparison settings x ({n} positions x 7x7 (unchanged, NaN, +inf, -inf, +0, -0, MAX) for the component of a and of b; b = -a; b = a rotated by one place; b = a with every component just outside the tolerance)"),
+        sets.len() * per_set,
+        Guard::states(50).distinct(20).need("equal", 3).need("unequal", 5),
+        |i, ctx| {
+            let (si, j) = (i / per_set, i % per_set);
+            let s = sets[si];
+            let (mut a, mut b) = (g.clone(), g.clone());
+            if j < n * ns * ns {
+                let (p, la, lb) = (j / (ns * ns), (j / ns) % ns, j % ns);
+                if let Some(x) = specials[la] { a[p] = x; }
+                if let Some(x) = specials[lb] { b[p] = x; }
+            } else {
+                match j - n * ns * ns {
+                    0 => b = a.iter().map(|x| -*x).collect(),
+                    1 => b = (0..n).map(|q| a[(q + 1) % n]).collect(),
+                    _ => b = a.iter().map(|x| { let c = perturbations(*x, s); c[c.len() - 2] }).collect(),
+                }
+            }
+            ctx.describe(|| format!("{}<{}> setting {:?}\n        a={:?}\n        b={:?}", C::NAME, T::NAME, s, a, b));
+            ctx.out(&(keys(&a), keys(&b), si));
+            let (ca, cb) = (C::build(&a), C::build(&b));
+            let (got, got_rev, refl, exp, exp_refl, kind) = match s {
+                Setting::Abs(e) => (ca.abs_diff_eq(&cb, e), cb.abs_diff_eq(&ca, e), ca.abs_diff_eq(&ca, e), (0..n).all(|j| a[j].abs_diff_eq(&b[j], e)), (0..n).all(|j| a[j].abs_diff_eq(&a[j], e)), "abs_diff_eq"),
+                Setting::Rel(e, mr) => (ca.relative_eq(&cb, e, mr), cb.relative_eq(&ca, e, mr), ca.relative_eq(&ca, e, mr), (0..n).all(|j| a[j].relative_eq(&b[j], e, mr)), (0..n).all(|j| a[j].relative_eq(&a[j], e, mr)), "relative_eq"),
+                Setting::Ulps(e, u) => (ca.ulps_eq(&cb, e, u), cb.ulps_eq(&ca, e, u), ca.ulps_eq(&ca, e, u), (0..n).all(|j| a[j].ulps_eq(&b[j], e, u)), (0..n).all(|j| a[j].ulps_eq(&a[j], e, u)), "ulps_eq"),
+            };
+            let exp_rev = match s {
+                Setting::Abs(e) => (0..n).all(|j| b[j].abs_diff_eq(&a[j], e)),
+                Setting::Rel(e, mr) => (0..n).all(|j| b[j].relative_eq(&a[j], e, mr)),
+                Setting::Ulps(e, u) => (0..n).all(|j| b[j].ulps_eq(&a[j], e, u)),
+            };
+            ctx.branch(if exp { "equal" } else { "unequal" });
+            ctx.check(got == exp, &key(&format!("{}/{kind}/special", C::NAME)), || format!("{kind} = {got}, the conjunction of the scalar comparisons over all components is {exp}"));
+            ctx.check(got_rev == exp_rev, &key(&format!("{}/{kind}/special", C::NAME)), || format!("{kind}(b,a) = {got_rev}, the conjunction of the scalar comparisons is {exp_rev}"));
+            ctx.check(refl == exp_refl, &key(&format!("{}/{kind}/special/reflexive", C::NAME)), || format!("{kind}(a,a) = {refl}, the scalar comparisons of each component with itself give {exp_refl}"));
+        },
+    );
+}
+
 // ------------------------------------------------------------------ predicates
 trait Fin<T: Fl> {
     const NAME: &'static str;
@@ -296,6 +348,11 @@ fn finite_zero<T: Fl, C: Fin<T>>(rep: &mut Report) {
                 ctx.describe(|| format!("{} all finite {:?}", C::NAME, g));
                 ctx.out(&0);
                 ctx.check(C::finite(&g), &key(&format!("{}/is_finite", C::NAME)), || "is_finite() is false for finite components".to_string());
+                // every component finite although their sum, their squares and their products are not
+                for pat in 0..3 {
+                    let big: Vec<T> = (0..n).map(|j| match pat { 0 => T::max_value(), 1 => -T::max_value(), _ => if j % 2 == 0 { T::max_value() } else { -T::max_value() } }).collect();
+                    ctx.check(C::finite(&big), &key(&format!("{}/is_finite", C::NAME)), || format!("is_finite() is false for the finite components {:?}", big));
+                }
                 if let Some((z, _)) = C::zero(&g) {
                     ctx.check(!z, &key(&format!("{}/is_zero", C::NAME)), || "is_zero() is true for a non-zero value".to_string());
                 }
@@ -371,12 +428,19 @@ fn matrix_predicates<T: Fl, M: MatN<T, N> + UlpsEq + AbsDiffEq<Epsilon = T>, con
             sym[i][j] = sym[j][i];
         }
     }
-    let bases = [("identity", ident), ("diagonal", diag), ("symmetric", sym), ("generic", g)];
+    // antisymmetric: mirror images equal in magnitude and opposite in sign (a sign-blind comparison calls it symmetric)
+    let mut anti = sym;
+    for i in 0..N {
+        for j in 0..i {
+            anti[i][j] = -anti[j][i];
+        }
+    }
+    let bases = [("identity", ident), ("diagonal", diag), ("symmetric", sym), ("generic", g), ("antisymmetric", anti)];
     let total = bases.len() * N * N * np;
     rep.cases(
         &format!("predicates/{}", M::NAME),
         T::NAME,
-        &format!("identity / diagonal / symmetric / generic base with each single element perturbed by 0, 1, 4, +-5 ulps, 1e-3, +-epsilon-band ({} cases)", total),
+        &format!("identity / diagonal / symmetric / generic / antisymmetric base with each single element perturbed by 0, 1, 4, +-5 ulps, 1e-3, +-epsilon-band ({} cases)", total),
         total,
         Guard::states(50).distinct(20),
         |i, ctx| {
@@ -480,6 +544,22 @@ fn all<T: Fl + serde::de::DeserializeOwned>(rep: &mut Report) {
     approx_system::<T, Basis3<T>>(rep);
     approx_system::<T, Decomposed<Vector3<T>, Quaternion<T>>>(rep);
     approx_system::<T, Decomposed<Vector2<T>, Basis2<T>>>(rep);
+    approx_special::<T, Vector1<T>>(rep);
+    approx_special::<T, Vector2<T>>(rep);
+    approx_special::<T, Vector3<T>>(rep);
+    approx_special::<T, Vector4<T>>(rep);
+    approx_special::<T, Point1<T>>(rep);
+    approx_special::<T, Point2<T>>(rep);
+    approx_special::<T, Point3<T>>(rep);
+    approx_special::<T, Matrix2<T>>(rep);
+    approx_special::<T, Matrix3<T>>(rep);
+    approx_special::<T, Matrix4<T>>(rep);
+    approx_special::<T, Quaternion<T>>(rep);
+    approx_special::<T, Rad<T>>(rep);
+    approx_special::<T, Deg<T>>(rep);
+    approx_special::<T, Euler<Rad<T>>>(rep);
+    approx_special::<T, Euler<Deg<T>>>(rep);
+    approx_special::<T, Decomposed<Vector3<T>, Quaternion<T>>>(rep);
     finite_zero::<T, Vector1<T>>(rep);
     finite_zero::<T, Vector2<T>>(rep);
     finite_zero::<T, Vector3<T>>(rep);
